@@ -30,6 +30,8 @@ enum Act {
     Create(usize),
     Exec(usize, Who),
     Close(usize, Who),
+    /// close with a crafted account list (the unused long-token slot of a short-only deposit names the short mint)
+    CloseCrafted(usize, Who),
     Adv(i64),
     Refresh,
     /// publish feeds with a wider spread / higher index price at the current time
@@ -64,8 +66,8 @@ struct Snapshot {
 struct St {
     db: Db,
     now: i64,
-    phase: [Phase; 6],
-    snap: [Snapshot; 6],
+    phase: [Phase; 7],
+    snap: [Snapshot; 7],
 }
 
 struct Slot {
@@ -82,6 +84,8 @@ struct Slot {
     price_dependent_min: u64,
     /// the long-side amount is swapped along [market 2, market 1] (out of and back into the deposit market's long token)
     long_path: bool,
+    /// a deposit without a long side at all (no long token / escrow accounts)
+    short_only: bool,
 }
 
 struct Life {
@@ -198,6 +202,12 @@ impl Machine for Life {
         self.solvency(&s.db, out);
     }
     fn step(&self, s: &St, a: &Act, out: &mut StepOut) -> St {
+        // a crafted close is judged exactly like a close: whatever account list the program accepts, the escrow goes home
+        let (a, crafted) = match *a {
+            Act::CloseCrafted(i, who) => (Act::Close(i, who), true),
+            x => (x, false),
+        };
+        let a = &a;
         let mut n = s.clone();
         W::set_time(s.now);
         let w = &self.w;
@@ -210,7 +220,7 @@ impl Machine for Life {
                 let m = self.markets()[sl.market];
                 let before = self.holdings(&s.db, sl);
                 let r = if sl.is_deposit {
-                    W::with_long_path(self.path_of(sl), || w.create_deposit(&mut n.db, m, sl.owner, sl.nonce, sl.amounts.0, sl.amounts.1, if sl.unreachable_min { u64::MAX } else { sl.price_dependent_min }, sl.owner))
+                    W::with_short_only(sl.short_only as u8, || W::with_long_path(self.path_of(sl), || w.create_deposit(&mut n.db, m, sl.owner, sl.nonce, sl.amounts.0, sl.amounts.1, if sl.unreachable_min { u64::MAX } else { sl.price_dependent_min }, sl.owner)))
                 } else {
                     let amount = before.2 / 2;
                     w.create_withdrawal(&mut n.db, m, sl.owner, sl.nonce, amount, if sl.unreachable_min { u64::MAX } else { 0 }, 0, sl.owner)
@@ -224,14 +234,15 @@ impl Machine for Life {
                 let sl = &self.slots[i];
                 let m = self.markets()[sl.market];
                 let by = self.key_of(sl, who);
-                Some(if sl.is_deposit { W::with_long_path(self.path_of(sl), || w.execute_deposit(&mut n.db, m, sl.owner, sl.nonce, by, false)) } else { w.execute_withdrawal(&mut n.db, m, sl.owner, sl.nonce, by, false) })
+                Some(if sl.is_deposit { W::with_short_only(sl.short_only as u8, || W::with_long_path(self.path_of(sl), || w.execute_deposit(&mut n.db, m, sl.owner, sl.nonce, by, false))) } else { w.execute_withdrawal(&mut n.db, m, sl.owner, sl.nonce, by, false) })
             }
             Act::Close(i, who) => {
                 let sl = &self.slots[i];
                 let m = self.markets()[sl.market];
                 let by = self.key_of(sl, who);
-                Some(if sl.is_deposit { w.close_deposit(&mut n.db, m, sl.owner, sl.nonce, by) } else { w.close_withdrawal(&mut n.db, m, sl.owner, sl.nonce, by) })
+                Some(if sl.is_deposit { W::with_short_only(if crafted && sl.short_only { 2 } else { sl.short_only as u8 }, || w.close_deposit(&mut n.db, m, sl.owner, sl.nonce, by)) } else { w.close_withdrawal(&mut n.db, m, sl.owner, sl.nonce, by) })
             }
+            Act::CloseCrafted(..) => unreachable!("normalised to Close above"),
             Act::Adv(dt) => {
                 n.now += dt;
                 None
@@ -421,22 +432,27 @@ pub fn run(cli: &Cli) -> Report {
     assert!(mint_a != mint_b && mint_a > 0 && mint_b > 0, "price-dependent minimum needs two different mint amounts ({mint_a}, {mint_b})");
     let price_dependent_min = mint_a.min(mint_b) + (mint_a.abs_diff(mint_b) + 1) / 2;
     let slots = vec![
-        Slot { is_deposit: true, market: 0, owner: w.user, nonce: [1; 32], amounts: (1_000_000, 12_000_000), unreachable_min: false, price_dependent_min: 0, long_path: false },
-        Slot { is_deposit: true, market: 0, owner: w.user2, nonce: [5; 32], amounts: (0, 12_000_000), unreachable_min: false, price_dependent_min, long_path: false },
-        Slot { is_deposit: false, market: 0, owner: w.user, nonce: [3; 32], amounts: (0, 0), unreachable_min: false, price_dependent_min: 0, long_path: false },
-        Slot { is_deposit: true, market: 1, owner: w.user2, nonce: [2; 32], amounts: (500_000, 0), unreachable_min: true, price_dependent_min: 0, long_path: false },
-        Slot { is_deposit: false, market: 0, owner: w.user2, nonce: [4; 32], amounts: (0, 0), unreachable_min: true, price_dependent_min: 0, long_path: false },
+        Slot { is_deposit: true, market: 0, owner: w.user, nonce: [1; 32], amounts: (1_000_000, 12_000_000), unreachable_min: false, price_dependent_min: 0, long_path: false, short_only: false },
+        Slot { is_deposit: true, market: 0, owner: w.user2, nonce: [5; 32], amounts: (0, 12_000_000), unreachable_min: false, price_dependent_min, long_path: false, short_only: false },
+        Slot { is_deposit: false, market: 0, owner: w.user, nonce: [3; 32], amounts: (0, 0), unreachable_min: false, price_dependent_min: 0, long_path: false, short_only: false },
+        Slot { is_deposit: true, market: 1, owner: w.user2, nonce: [2; 32], amounts: (500_000, 0), unreachable_min: true, price_dependent_min: 0, long_path: false, short_only: false },
+        Slot { is_deposit: false, market: 0, owner: w.user2, nonce: [4; 32], amounts: (0, 0), unreachable_min: true, price_dependent_min: 0, long_path: false, short_only: false },
         // the long side travels out of and back into the deposit market's long token: [market 2, market 1] (the last hop is the
         // deposit market itself)
-        Slot { is_deposit: true, market: 0, owner: w.user2, nonce: [6; 32], amounts: (700_000, 0), unreachable_min: false, price_dependent_min: 0, long_path: true },
+        Slot { is_deposit: true, market: 0, owner: w.user2, nonce: [6; 32], amounts: (700_000, 0), unreachable_min: false, price_dependent_min: 0, long_path: true, short_only: false },
+        // a deposit without a long side (no long token or escrow accounts); it can also be closed with a crafted account list
+        Slot { is_deposit: true, market: 0, owner: w.user, nonce: [7; 32], amounts: (0, 9_000_000), unreachable_min: false, price_dependent_min: 0, long_path: false, short_only: true },
     ];
-    let used: Vec<usize> = if th { (0..6).collect() } else if props == P22 { vec![0, 1, 2, 5] } else { vec![0, 1, 2] };
+    let used: Vec<usize> = if th { (0..7).collect() } else if props == P22 { vec![0, 1, 2, 5] } else { vec![0, 1, 2, 6] };
     let mut acts = vec![];
+    if used.contains(&6) {
+        acts.extend([Act::CloseCrafted(6, Who::Owner), Act::CloseCrafted(6, Who::Keeper), Act::CloseCrafted(6, Who::Stranger)]);
+    }
     for i in used {
         acts.extend([Act::Create(i), Act::Exec(i, Who::Keeper), Act::Exec(i, Who::Stranger), Act::Close(i, Who::Owner), Act::Close(i, Who::Keeper), Act::Close(i, Who::Stranger)]);
     }
     acts.extend([Act::Adv(30), Act::Adv(100), Act::Refresh, Act::Reprice]);
-    let mut starts = vec![St { db: db.clone(), now: 1_000, phase: [Phase::Absent; 6], snap: [Snapshot::default(); 6] }];
+    let mut starts = vec![St { db: db.clone(), now: 1_000, phase: [Phase::Absent; 7], snap: [Snapshot::default(); 7] }];
     if props == P22 {
         // fee claims and keeper transfers, and start states that position activity would leave behind
         // (collateral sums, accrued fees, funding already paid out), fabricated through a real RevertibleMarket
@@ -501,7 +517,7 @@ pub fn run(cli: &Cli) -> Report {
                     d.set(v, world::token_acc(w.b, w.store, amount));
                 }
             }
-            starts.push(St { db: d, now: 1_000, phase: [Phase::Absent; 6], snap: [Snapshot::default(); 6] });
+            starts.push(St { db: d, now: 1_000, phase: [Phase::Absent; 7], snap: [Snapshot::default(); 7] });
         }
     }
     let life = Life { w, acts, slots, props };
